@@ -206,6 +206,11 @@ func runC18(st *ev.Stats, c C18Case) string {
 	// reference acceptance predicate from the documented stateless rules: non-zero gas that fits int64, fee cap * gas
 	// within 256 bits, tip <= fee cap. A well-formed tx that satisfies it must be accepted (positive control: an
 	// envelope that corrupts a field makes the recorded hash disagree and would otherwise hide behind a rejection).
+	// the figures derived from the message are stated over all field values: they are compared before the stateless
+	// validation has a say, so that a gas limit or an amount the envelope later refuses is still covered
+	if d := c18Figures(msg, tx, c, kind, "wrapped"); d != nil {
+		return fail(d[0], d[1])
+	}
 	feeBits := new(big.Int).Mul(tx.GasFeeCap(), new(big.Int).SetUint64(tx.Gas())).BitLen()
 	wellFormed := tx.Gas() != 0 && tx.Gas() <= 1<<63-1 && feeBits <= 256 && tx.GasTipCap().Cmp(tx.GasFeeCap()) <= 0
 	if err := msg.ValidateBasic(); err != nil {
@@ -308,34 +313,8 @@ func runC18(st *ev.Stats, c C18Case) string {
 			return fail("field:"+kind+":"+x.name, fmt.Sprintf("%s: original %v, after round trip %v", x.name, trunc(fmt.Sprint(x.a)), trunc(fmt.Sprint(x.b))))
 		}
 	}
-	// derived figures
-	td, err := evmtypes.UnpackTxData(m2.Data)
-	if err != nil {
-		return fail("unpack:"+kind, err.Error())
-	}
-	gas := new(big.Int).SetUint64(tx.Gas())
-	baseFee := bigOf(c.BaseFee)
-	wantFee := new(big.Int).Mul(tx.GasFeeCap(), gas)
-	wantCost := new(big.Int).Add(wantFee, tx.Value())
-	eff := new(big.Int).Set(tx.GasPrice())
-	if c.Type == 2 {
-		eff = new(big.Int).Add(tx.GasTipCap(), baseFee)
-		if eff.Cmp(tx.GasFeeCap()) > 0 {
-			eff = new(big.Int).Set(tx.GasFeeCap())
-		}
-	}
-	wantEffFee := new(big.Int).Mul(eff, gas)
-	wantEffCost := new(big.Int).Add(wantEffFee, tx.Value())
-	for _, x := range []f{
-		{"Fee", td.Fee().String(), wantFee.String()}, {"Cost", td.Cost().String(), wantCost.String()}, {"geth-Cost", tx.Cost().String(), wantCost.String()},
-		{"EffectiveGasPrice", td.EffectiveGasPrice(baseFee).String(), eff.String()}, {"EffectiveFee", td.EffectiveFee(baseFee).String(), wantEffFee.String()},
-		{"EffectiveCost", td.EffectiveCost(baseFee).String(), wantEffCost.String()},
-		{"msg.GetFee", m2.GetFee().String(), wantFee.String()}, {"msg.GetEffectiveFee", m2.GetEffectiveFee(baseFee).String(), wantEffFee.String()},
-		{"msg.GetGas", m2.GetGas(), tx.Gas()},
-	} {
-		if fmt.Sprint(x.a) != fmt.Sprint(x.b) {
-			return fail("figure:"+kind+":"+x.name, fmt.Sprintf("%s = %v, recomputed from the original %v", x.name, x.a, x.b))
-		}
+	if d := c18Figures(m2, tx, c, kind, "decoded"); d != nil {
+		return fail(d[0], d[1])
 	}
 	st.Class("round-tripped:" + kind)
 	if c.Type > 0 && (len(c.Access) > 0 || c.To == "") {
@@ -373,4 +352,76 @@ func TestC18_RoundTrip(t *testing.T) {
 			rt.Fatalf("%s", msg)
 		}
 	})
+}
+
+// c18Figures compares everything the message derives from its transaction data (fee, cost, effective price, gas, chain
+// id, signer) with values recomputed from the original go-ethereum transaction. Returns {key, what} or nil.
+func c18Figures(m *evmtypes.MsgEthereumTx, tx *ethtypes.Transaction, c C18Case, kind, stage string) (out []string) {
+	defer func() {
+		if r := recover(); r != nil {
+			out = []string{"figure-panic:" + kind, fmt.Sprintf("%s message: deriving figures panicked: %v", stage, r)}
+		}
+	}()
+	td, err := evmtypes.UnpackTxData(m.Data)
+	if err != nil {
+		return []string{"unpack:" + kind, err.Error()}
+	}
+	gas := new(big.Int).SetUint64(tx.Gas())
+	baseFee := bigOf(c.BaseFee)
+	wantFee := new(big.Int).Mul(tx.GasFeeCap(), gas)
+	wantCost := new(big.Int).Add(wantFee, tx.Value())
+	eff := new(big.Int).Set(tx.GasPrice())
+	if c.Type == 2 {
+		eff = new(big.Int).Add(tx.GasTipCap(), baseFee)
+		if eff.Cmp(tx.GasFeeCap()) > 0 {
+			eff = new(big.Int).Set(tx.GasFeeCap())
+		}
+	}
+	wantEffFee := new(big.Int).Mul(eff, gas)
+	wantEffCost := new(big.Int).Add(wantEffFee, tx.Value())
+	type f struct {
+		name string
+		a, b any
+	}
+	chk := []f{
+		{"Fee", td.Fee().String(), wantFee.String()}, {"Cost", td.Cost().String(), wantCost.String()}, {"geth-Cost", tx.Cost().String(), wantCost.String()},
+		{"EffectiveGasPrice", td.EffectiveGasPrice(baseFee).String(), eff.String()}, {"EffectiveFee", td.EffectiveFee(baseFee).String(), wantEffFee.String()},
+		{"EffectiveCost", td.EffectiveCost(baseFee).String(), wantEffCost.String()},
+		{"msg.GetFee", m.GetFee().String(), wantFee.String()}, {"msg.GetEffectiveFee", m.GetEffectiveFee(baseFee).String(), wantEffFee.String()},
+		{"msg.GetGas", m.GetGas(), tx.Gas()}, {"GetGas", td.GetGas(), tx.Gas()}, {"GetNonce", td.GetNonce(), tx.Nonce()},
+		{"GetValue", td.GetValue().String(), tx.Value().String()},
+		{"GetGasPrice", td.GetGasPrice().String(), tx.GasPrice().String()},
+		{"GetGasTipCap", td.GetGasTipCap().String(), tx.GasTipCap().String()}, {"GetGasFeeCap", td.GetGasFeeCap().String(), tx.GasFeeCap().String()},
+	}
+	// the chain id the message derives for itself is the one the transaction was signed for (zero for a pre-EIP-155
+	// signature), and the sender recovered with it is the signer
+	chk = append(chk, f{"GetChainID", bigStr(td.GetChainID()), tx.ChainId().String()})
+	for _, x := range chk {
+		if fmt.Sprint(x.a) != fmt.Sprint(x.b) {
+			return []string{"figure:" + kind + ":" + x.name, fmt.Sprintf("%s message: %s = %v, recomputed from the original %v", stage, x.name, x.a, x.b)}
+		}
+	}
+	if !c.Unprot {
+		var signer ethtypes.Signer = ethtypes.LatestSignerForChainID(tx.ChainId())
+		want, err := ethtypes.Sender(signer, tx)
+		if err != nil {
+			panic(err)
+		}
+		s, err := m.GetSender(td.GetChainID())
+		if err != nil || s != want {
+			return []string{"sender:" + kind, fmt.Sprintf("%s message: GetSender(derived chain id %s) = %s (%v), signer %s", stage, bigStr(td.GetChainID()), s, err, want)}
+		}
+		sg := m.GetSigners()
+		if len(sg) != 1 || !bytes.Equal(sg[0], want.Bytes()) {
+			return []string{"sender:" + kind, fmt.Sprintf("%s message: GetSigners = %v, signer %s", stage, sg, want)}
+		}
+	}
+	return nil
+}
+
+func bigStr(b *big.Int) string {
+	if b == nil {
+		return "0"
+	}
+	return b.String()
 }
